@@ -1,16 +1,19 @@
 ---- MODULE Smoke ----
-EXTENDS TlsRecord
-C == INSTANCE TlsRecord WITH RangeMode <- FALSE
+EXTENDS Calls
+C == INSTANCE Calls WITH RangeMode <- FALSE
 VARIABLE i
 Init == i = 1
 Next == FALSE /\ i' = i
-\* test_tls_record_serverdone: 16 03 03 00 04 0e 00 00 00
-SD == <<22,3,3,0,4,14,0,0,0>>
-CH == [t |-> "ClientHello", ver |-> 771, random |-> Fill(3,32), sid |-> None, ciphers |-> <<47, 53>>, comp |-> <<0>>, ext |-> Some(<<0,0,0,0>>)]
-I1 == PrintT(ParsePlaintext(SD,0,Len(SD)))
-I2 == PrintT(C!ParsePlaintext(SD,0,Len(SD)))
-I3 == C!DecHandshake(EncHs(CH), 0, Len(EncHs(CH))) = Ok(Len(EncHs(CH)), [t |-> "hs", m |-> CH])
-I4 == PrintT(DecHandshake(EncHs(CH), 0, Len(EncHs(CH))))
-I5 == PrintT(ParsePlaintext(<<24,3,1,0,3,1,0,9>>,0,8)) /\ PrintT(ParsePlaintext(<<23,3,1,0,2,1,2>>,0,7))
-Inv == I1 /\ I2 /\ I3 /\ I4 /\ I5
+\* test_tls_extension_alpn etc
+Sni == [t |-> "SNI", tag |-> 0, names |-> <<[nt |-> 0, name |-> <<97,98>>]>>]
+I1 == PrintT(C!DecExt("generic", EncExt(Sni), 0, Len(EncExt(Sni)))) /\ C!DecExt("generic", EncExt(Sni), 0, Len(EncExt(Sni))).v = Sni
+I2 == PrintT(DecExtList("client", <<10,26,0,1,5, 0,22,0,0, 0,21,0,1,9>>, 0, 14))
+I3 == PrintT(DecTagged(15, <<0,15,0,1,2>>, 0, 5)) /\ PrintT(DecTagged(5, <<0,5,0,0>>, 0, 4))
+Dh == [p |-> <<1,2>>, g |-> <<>>, ys |-> <<5>>]
+I4 == C!DecDhParams(EncDhParams(Dh), 0, Len(EncDhParams(Dh))) = Ok(Len(EncDhParams(Dh)), Dh)
+Sc == [ver |-> 0, id |-> Fill(1,32), ts |-> <<1,2,3,4>>, ext |-> <<>>, sig |-> [alg |-> Some([hash |-> 4, sign |-> 3]), data |-> <<9,9>>]]
+I5 == C!DecSctList(EncSctList(<<Sc,Sc>>), 0, Len(EncSctList(<<Sc,Sc>>))).v = <<Sc,Sc>>
+DR == EncDtlsRecord(22, 65277, 1, <<0,0,5>>, EncDtlsHs(14, 0, 3, 0, 0, <<>>))
+I6 == PrintT(ParseDtlsRecord(DR, 0, Len(DR)))
+Inv == I1 /\ I2 /\ I3 /\ I4 /\ I5 /\ I6
 ====
